@@ -1,8 +1,9 @@
 import OsmVerif.Oracle.Util
 import OsmVerif.Model.Pbf
+import OsmVerif.Model.PbfScan
 /-! Parser of the structured-file tokens and printer of scanned objects (the same text the harness prints). -/
 namespace OsmVerif.Oracle.Pbf
-open OsmVerif.Oracle OsmVerif.Model.Pbf
+open OsmVerif.Oracle OsmVerif.Model.Pbf OsmVerif.Model.PbfScan
 
 structure Header where
   bbox : Option (List Int) := none
@@ -225,6 +226,47 @@ def handleC01 (toks : List String) : String :=
     | some f =>
       let (objs, ok) := decodePrefix (f.blocks.map (·.block))
       showScan (showHeader f.header) objs ok
+  | _ => "bad-op"
+
+/-! ### C08: selections -/
+
+/-- a predicate spec shared with the harness: all | none | idmod.K.R | tags | ver.K | vis -/
+def predOf (spec : String) : Option (Int → Meta → List (String × String) → Bool) :=
+  match spec.splitOn "." with
+  | ["all"] => some fun _ _ _ => true
+  | ["none"] => some fun _ _ _ => false
+  | ["tags"] => some fun _ _ ts => !ts.isEmpty
+  | ["vis"] => some fun _ m _ => m.vis
+  | ["ver", k] => k.toInt?.map fun k => fun _ m _ => m.ver > k
+  | ["idmod", k, r] =>
+    match k.toInt?, r.toInt? with
+    | some k, some r => if k = 0 then none else some fun id _ _ => Int.tmod id k = r
+    | _, _ => none
+  | _ => none
+
+def selectOf (skip fN fW fR : String) : Option Select :=
+  match skip.toList, predOf fN, predOf fW, predOf fR with
+  | [a, b, c], some pn, some pw, some pr =>
+    some { skipNodes := a = '1', skipWays := b = '1', skipRels := c = '1',
+           node := fun n => pn n.id n.md n.tags, way := fun w => pw w.id w.md w.tags, rel := fun r => pr r.id r.md r.tags }
+  | _, _, _, _ => none
+
+def scanPrefix (ru : Reuses) (s : Select) : List Block → List Obj × Bool
+  | [] => ([], true)
+  | b :: rest =>
+    match scanBlock ru s b with
+    | none => ([], false)
+    | some os => let (more, ok) := scanPrefix ru s rest; (os ++ more, ok)
+
+def handleC08 (toks : List String) : String :=
+  match toks with
+  | "filt" :: _procs :: skip :: fN :: fW :: fR :: file =>
+    match parseFile file, selectOf skip fN fW fR, reuses with
+    | some f, some sel, some ru =>
+      let (objs, ok) := scanPrefix ru sel (f.blocks.map (·.block))
+      showScan (showHeader f.header) objs ok
+    | _, _, none => "model-undefined"
+    | _, _, _ => "bad-op"
   | _ => "bad-op"
 
 end OsmVerif.Oracle.Pbf
